@@ -1,6 +1,7 @@
 """Engine A contracts: batching loop of tf_pwa.data._data_split (C18 and the batch-independence half of C03/C06/C07)
 and the exact-count loop of PhaseSpaceGenerator.generate (C10)."""
 import ast
+import copy
 
 import z3
 
@@ -135,3 +136,300 @@ def phsp_exact_count(ctx):
             detail = "return path: %s %s" % (st, model)
     ctx.check("returns_exactly_n_iter", ok_all and npaths >= 2, clause="generate(n_iter, force=True, flatten=True) returns momenta of leading length exactly n_iter "
               "(both the 2-body shortcut and the accept-refill path)", detail=detail or "paths=%d" % npaths)
+
+
+# ---------------------------------------------------------------------------------------------------- C20: acceptance-rejection count
+def _inline_generator_loop(fn_node, gen_node, recv, loop_var_holder="for"):
+    """MECHANICAL transformation (stated in evidence): in `fn_node`, the statement  `for <v> in <recv>.generate(<N>): BODY`  is replaced by the body of the
+    generator method `gen_node` with `self` renamed to <recv>, the generator's parameter renamed to the call argument, and every `yield <e>` replaced by
+    `<v> = <e>; BODY` - the coroutine semantics of a Python generator driven by a for loop (BODY runs at each yield, the generator resumes after it; the loop ends when
+    the generator returns).  Requires: exactly one such for-loop, a generator whose yields are statements at loop-body level (not inside try/with), BODY without
+    break/continue/return.  Attribute accesses <recv>.<attr> become plain names <recv>__<attr>; calls <recv>.<m>(args) to one-line setters are inlined likewise."""
+    fn_node = copy.deepcopy(fn_node)
+    gen_node = copy.deepcopy(gen_node)
+
+    class FindFor(ast.NodeVisitor):
+        found = None
+
+        def visit_For(self, node):
+            it = node.iter
+            if isinstance(it, ast.Call) and isinstance(it.func, ast.Attribute) and it.func.attr == gen_node.name and isinstance(it.func.value, ast.Name) \
+                    and it.func.value.id == recv:
+                if self.found is not None:
+                    raise pyvc.Unsupported("more than one loop over %s.%s" % (recv, gen_node.name))
+                self.found = node
+            self.generic_visit(node)
+
+    ff = FindFor()
+    ff.visit(fn_node)
+    loop = ff.found
+    if loop is None or not isinstance(loop.target, ast.Name) or loop.orelse:
+        raise pyvc.Unsupported("for-loop over %s.%s(...) not found in the expected form" % (recv, gen_node.name))
+    for n in ast.walk(ast.Module(body=loop.body, type_ignores=[])):
+        if isinstance(n, (ast.Break, ast.Continue, ast.Return, ast.Yield)):
+            raise pyvc.Unsupported("loop body contains %s" % type(n).__name__)
+    params = [a.arg for a in gen_node.args.args]
+    if params[0] != "self" or len(params) - 1 != len(loop.iter.args):
+        raise pyvc.Unsupported("generator signature")
+    ren = dict(zip(params[1:], loop.iter.args))
+
+    class Ren(ast.NodeTransformer):
+        def visit_Name(self, node):
+            if node.id == "self":
+                return ast.copy_location(ast.Name(id=recv, ctx=node.ctx), node)
+            if node.id in ren and isinstance(node.ctx, ast.Load):
+                return copy.deepcopy(ren[node.id])
+            return node
+
+    gbody = [Ren().visit(s) for s in gen_node.body]
+
+    class Yields(ast.NodeTransformer):
+        count = 0
+
+        def visit_Expr(self, node):
+            if isinstance(node.value, ast.Yield):
+                Yields.count += 1
+                asg = ast.Assign(targets=[ast.Name(id=loop.target.id, ctx=ast.Store())], value=node.value.value, lineno=node.lineno)
+                return [asg] + copy.deepcopy(loop.body)
+            return node
+
+    Yields.count = 0
+    gbody = [x for s in gbody for x in (lambda r: r if isinstance(r, list) else [r])(Yields().visit(s))]
+    if Yields.count < 1:
+        raise pyvc.Unsupported("generator has no yield statement")
+    for n in ast.walk(ast.Module(body=gbody, type_ignores=[])):
+        if isinstance(n, (ast.Yield, ast.YieldFrom)):
+            raise pyvc.Unsupported("yield in expression position")
+
+    class Splice(ast.NodeTransformer):
+        def visit_For(self, node):
+            if node is loop:
+                return gbody
+            return self.generic_visit(node)
+
+    fn_node = Splice().visit(fn_node)
+    ast.fix_missing_locations(fn_node)
+    return fn_node
+
+
+def _flatten_receiver(fn_node, recv, setters):
+    """<recv>.<attr> -> name <recv>__<attr>;  `<recv>.<m>(e)` statement for a one-line setter m (`self.<attr> = <expr in self.<attr>, param>`) -> the assignment"""
+    class Fl(ast.NodeTransformer):
+        def visit_Expr(self, node):
+            v = node.value
+            if isinstance(v, ast.Call) and isinstance(v.func, ast.Attribute) and isinstance(v.func.value, ast.Name) and v.func.value.id == recv and v.func.attr in setters:
+                m = setters[v.func.attr]
+                body = [s for s in m.body if not (isinstance(s, ast.Expr) and isinstance(s.value, ast.Constant))]
+                if len(body) != 1 or not isinstance(body[0], ast.Assign) or len(m.args.args) != 2 or len(v.args) != 1:
+                    raise pyvc.Unsupported("setter %s is not a one-line assignment" % v.func.attr)
+                par = m.args.args[1].arg
+
+                class R(ast.NodeTransformer):
+                    def visit_Name(self, n):
+                        if n.id == "self":
+                            return ast.Name(id=recv, ctx=n.ctx)
+                        if n.id == par:
+                            return copy.deepcopy(v.args[0])
+                        return n
+
+                asg = R().visit(copy.deepcopy(body[0]))
+                return self.generic_visit(ast.copy_location(asg, node))
+            return self.generic_visit(node)
+
+        def visit_Attribute(self, node):
+            if isinstance(node.value, ast.Name) and node.value.id == recv:
+                return ast.copy_location(ast.Name(id="%s__%s" % (recv, node.attr), ctx=node.ctx), node)
+            return self.generic_visit(node)
+
+    out = Fl().visit(fn_node)
+    ast.fix_missing_locations(out)
+    return out
+
+
+def _abstract_piece_list(fn_node, name):
+    """the list `name` of same-structured data pieces is abstracted by the TOTAL number of events in it:
+    `name = []` -> vt_list_empty();  `name = [x]` -> vt_list_single(x);  `name.append(x)` -> name = vt_list_append(name, x);  `tf.range(e) < n` -> vt_prefix_mask(e, n)"""
+    class Tr(ast.NodeTransformer):
+        def visit_Assign(self, node):
+            if len(node.targets) == 1 and isinstance(node.targets[0], ast.Name) and node.targets[0].id == name and isinstance(node.value, ast.List):
+                if len(node.value.elts) == 0:
+                    node.value = ast.Call(func=ast.Name(id="vt_list_empty", ctx=ast.Load()), args=[], keywords=[])
+                elif len(node.value.elts) == 1:
+                    node.value = ast.Call(func=ast.Name(id="vt_list_single", ctx=ast.Load()), args=[node.value.elts[0]], keywords=[])
+                else:
+                    raise pyvc.Unsupported("list literal with several pieces")
+                return node
+            return self.generic_visit(node)
+
+        def visit_Expr(self, node):
+            v = node.value
+            if isinstance(v, ast.Call) and isinstance(v.func, ast.Attribute) and v.func.attr == "append" and isinstance(v.func.value, ast.Name) and v.func.value.id == name:
+                return ast.copy_location(ast.Assign(targets=[ast.Name(id=name, ctx=ast.Store())],
+                                                    value=ast.Call(func=ast.Name(id="vt_list_append", ctx=ast.Load()), args=[ast.Name(id=name, ctx=ast.Load()), v.args[0]], keywords=[])), node)
+            return self.generic_visit(node)
+
+        def visit_Compare(self, node):
+            if len(node.ops) == 1 and isinstance(node.ops[0], ast.Lt) and isinstance(node.left, ast.Call) and ast.unparse(node.left.func) == "tf.range" and len(node.left.args) == 1:
+                return ast.copy_location(ast.Call(func=ast.Name(id="vt_prefix_mask", ctx=ast.Load()), args=[node.left.args[0], node.comparators[0]], keywords=[]), node)
+            return self.generic_visit(node)
+
+    out = Tr().visit(fn_node)
+    ast.fix_missing_locations(out)
+    return out
+
+
+def _sampling_callees():
+    def ev_star(e, node, k=0):
+        a = node.args[k]
+        return e.ev(a.value if isinstance(a, ast.Starred) else a)
+
+    def merge(e, node, args):
+        v = ev_star(e, node)
+        return _len(v.z) if v.kind == "len" else pyvc.AbsVal("opaque")
+
+    def shape(e, node, args):
+        return pyvc.AbsVal("int", args[0].z) if args[0].kind == "len" else pyvc.AbsVal("opaque")
+
+    def mask(e, node, args):
+        x, cut = args
+        if x.kind != "len":
+            return pyvc.AbsVal("opaque")
+        if cut.kind == "prefix_mask":
+            n, N = cut.z
+            e.vcs.append(("prefix_mask_length_matches#%d" % sum(1 for v in e.vcs if v[0].startswith("prefix_mask_length")), list(e.facts), n == x.z,
+                          "the mask tf.range(n) < N is built for the length of the data it is applied to"))
+            Np = z3.If(N >= 0, N, 0)
+            return _len(z3.If(x.z <= Np, x.z, Np))   # number of k in [0, n) with k < N
+        L = e.fresh_int("kept")
+        e.assume(z3.And(L >= 0, L <= x.z))           # a boolean mask keeps a sub-sequence (A-OPS)
+        return _len(L)
+
+    def prefix(e, node, args):
+        if args[0].kind == "int" and args[1].kind == "int":
+            return pyvc.AbsVal("prefix_mask", (args[0].z, args[1].z))
+        return pyvc.AbsVal("opaque")
+
+    return {"data_merge": merge, "data_shape": shape, "data_mask": mask, "vt_prefix_mask": prefix,
+            "vt_list_empty": lambda e, n, a: _len(z3.IntVal(0)),
+            "vt_list_single": lambda e, n, a: _len(a[0].z) if a[0].kind == "len" else pyvc.AbsVal("opaque"),
+            "vt_list_append": lambda e, n, a: _len(a[0].z + a[1].z) if a[0].kind == "len" and a[1].kind == "len" else pyvc.AbsVal("opaque")}
+
+
+@group(["C20"], "generator.multi_sampling/exact_count", ["generator.generator:multi_sampling", "generator.generator:single_sampling2", "generator.generator:GenTest.generate",
+                                                        "generator.generator:GenTest.add_gen", "generator.generator:GenTest.set_gen"], env="shim", kind="P", plain=True,
+       assumes=["callee contracts (lengths only): phsp(n) returns a structure of n >= 0 events whatever n it is asked for is NOT assumed - only that its event count is >= 0; "
+                "data_mask(x, m) keeps a sub-sequence of x (0 <= kept <= len x) and, for m = tf.range(len x) < N, exactly min(len x, max(N, 0)) events; "
+                "data_merge(*pieces) has the total number of events; data_shape(x) is the number of events (A-OPS / C18 contracts)",
+                "MECHANICAL transformations of the AST before VC generation (vt/contracts/loops.py): the for-loop over the generator GenTest.generate is replaced by the "
+                "generator's body with every `yield e` replaced by `i = e; <loop body>` (coroutine semantics of for-over-generator, A-PY); a.N_gen etc. become plain variables; "
+                "the one-line setters add_gen / set_gen are inlined from their real bodies; the piece list all_data is abstracted by its total event count",
+                "termination of the refill loop is probabilistic and NOT claimed (DESIGN C20, N)"])
+def multi_sampling_exact_count(ctx):
+    repo = loader.repo()
+    f_multi, _ = frames.load_function(repo, "generator.generator:multi_sampling")
+    f_gen, _ = frames.load_function(repo, "generator.generator:GenTest.generate")
+    f_add, _ = frames.load_function(repo, "generator.generator:GenTest.add_gen")
+    f_set, _ = frames.load_function(repo, "generator.generator:GenTest.set_gen")
+    f_ss2, _ = frames.load_function(repo, "generator.generator:single_sampling2")
+    # ---- callee: single_sampling2 returns (data, bound) with 0 <= len(data) <= len(phsp(N))
+    n_req = z3.Int("n_req")
+    n_phsp = z3.Int("n_phsp")
+
+    def phsp(e, node, args):
+        return _len(n_phsp)
+
+    cal = dict(_sampling_callees())
+    cal["phsp"] = phsp
+    try:
+        eng = pyvc.CountLoop(f_ss2, {"N": pyvc.AbsVal("int", n_req)}, cal, {})
+        eng.facts += [n_phsp >= 0]
+        eng.execute()
+    except pyvc.Unsupported as ex:
+        ctx.check("single_sampling2/supported_subset", False, clause="single_sampling2 is inside the analysed subset", detail=str(ex))
+        return
+    ok, npaths, detail = True, 0, ""
+    for facts, val, env in eng.returned:
+        s = z3.Solver()
+        s.add(*facts)
+        if s.check() == z3.unsat:
+            continue
+        npaths += 1
+        if val.kind != "tuple" or len(val.z) != 2 or val.z[0].kind != "len":
+            ok, detail = False, "a return path does not return (data, bound) with a tracked event count"
+            continue
+        st, model = pyvc.valid(list(facts), z3.And(val.z[0].z >= 0, val.z[0].z <= n_phsp))
+        if st != "proved":
+            ok, detail = False, "return path: %s %s" % (st, model)
+    ctx.count(key="ss2")
+    ctx.check("single_sampling2/returns_subsample", ok and npaths >= 1, clause="single_sampling2 returns (data, bound) where data is a sub-sample of phsp(N): 0 <= events <= len(phsp(N)) on every path",
+              detail=detail or "paths=%d" % npaths, backend="z3-LIA")
+    # ---- multi_sampling with the generator inlined
+    try:
+        fn = _inline_generator_loop(f_multi, f_gen, "a")
+        fn = _flatten_receiver(fn, "a", {"add_gen": f_add, "set_gen": f_set})
+        fn = _abstract_piece_list(fn, "all_data")
+    except pyvc.Unsupported as ex:
+        ctx.check("multi_sampling/supported_subset", False, clause="multi_sampling / GenTest.generate are inside the transformed subset", detail=str(ex))
+        return
+    # vacuity guard on the transformation (structural, not textual): exactly one while loop guarded by the generated-event counter, no loop over the generator left,
+    # the counter is assigned inside the loop, and accepted batches are appended to the piece list inside the loop
+    whiles = [n for n in ast.walk(fn) if isinstance(n, ast.While)]
+    left = [n for n in ast.walk(fn) if isinstance(n, ast.For) and "generate" in ast.unparse(n.iter)]
+    in_loop = whiles[0] if whiles else ast.Module(body=[], type_ignores=[])
+    assigns = {t.id for n in ast.walk(in_loop) if isinstance(n, ast.Assign) for t in n.targets if isinstance(t, ast.Name)}
+    ctx.check("multi_sampling/transformed_shape", len(whiles) == 1 and not left and "a__N_gen" in ast.unparse(whiles[0].test) and {"a__N_gen", "all_data"} <= assigns,
+              clause="after the mechanical transformation there is one refill loop guarded by the generated-event counter; the counter and the piece list are updated inside it",
+              detail=ast.unparse(fn)[:1500], backend="ast")
+    N = z3.Int("N")
+    force = z3.Bool("force")
+
+    def ss2(e, node, args):
+        L = e.fresh_int("acc")
+        e.assume(L >= 0)   # proved above: a sub-sample of what phsp returned
+        return pyvc.AbsVal("tuple", [_len(L), pyvc.AbsVal("opaque")])
+
+    cal = dict(_sampling_callees())
+    cal["single_sampling2"] = ss2
+
+    def inv(env):
+        ng, ad = env.get("a__N_gen"), env.get("all_data")
+        if ng is None or ad is None or ng.kind != "int" or ad.kind != "len":
+            return z3.BoolVal(False)
+        return z3.And(ng.z == ad.z, ng.z >= 0)
+
+    params = {"N": pyvc.AbsVal("int", N), "force": pyvc.AbsVal("bool", force)}
+    eng = pyvc.CountLoop(fn, params, cal, {0: inv})
+    eng.facts += [N >= 1]
+    try:
+        eng.execute()
+    except pyvc.Unsupported as ex:
+        ctx.check("multi_sampling/supported_subset", False, clause="multi_sampling is inside the analysed subset", detail=str(ex))
+        return
+    _emit(ctx, eng.vcs, "multi_sampling/")
+    ok, npaths, detail = True, 0, ""
+    for facts, val, env in eng.returned:
+        hyps = list(facts) + [force]
+        s = z3.Solver()
+        s.add(*hyps)
+        if s.check() == z3.unsat:
+            continue
+        npaths += 1
+        if val.kind != "tuple" or val.z[0].kind != "len":
+            ok, detail = False, "a return path yields a value whose event count is not tracked"
+            continue
+        st, model = pyvc.valid(hyps, val.z[0].z == N)
+        if st != "proved":
+            ok, detail = False, "return path: %s %s" % (st, model)
+    ctx.check("multi_sampling/returns_exactly_N", ok and npaths >= 1, clause="multi_sampling(phsp, amp, N >= 1, force=True) returns exactly N events on every return path "
+              "(the refill loop ends only with N_gen >= N, N_gen is the number of events held, the final prefix mask keeps min(held, N))", detail=detail or "paths=%d" % npaths,
+              backend="z3-LIA")
+    ok2 = True
+    for facts, val, env in eng.returned:
+        hyps = list(facts) + [z3.Not(force)]
+        s = z3.Solver()
+        s.add(*hyps)
+        if s.check() == z3.unsat:
+            continue
+        if val.kind != "tuple" or val.z[0].kind != "len" or pyvc.valid(hyps, val.z[0].z >= N)[0] != "proved":
+            ok2 = False
+    ctx.check("multi_sampling/at_least_N_without_force", ok2, clause="with force=False at least N events are returned", backend="z3-LIA")
